@@ -39,7 +39,11 @@ MANIFEST = dict(
          "zero end curvature (natural cubic), periodic joins of value/slope/curvature, linearity in the ordinates "
          "(interpolation and fit), a fit reproduces a spline that lies in its space (same and refined grid), and the "
          "residual of a fit of data outside the space is orthogonal to every cardinal spline of the fit grid "
-         "(normal equations, a bilinear relation).",
+         "(normal equations, a bilinear relation). Mode H (SplineHist): all call histories of depth <= 3 on ONE spline "
+         "object (setBC, Interpolate, Fit with set or inherited grid; equal and different N) - after every call the "
+         "object equals a fresh object given only the last call, exactly. Derivative-of-value identities also in both "
+         "extrapolation regions for all three types; csg_resample identity clause also on long decimal tables with "
+         "negative/zero-crossing abscissae and early/late flag transitions.",
     note="NOT covered: least-squares optimality of Fit beyond its first-order condition on small lattice data "
          "sets (normal equations against the cardinal splines of the fit grid, data on the quarter points of 3-5 "
          "knot grids; plus its consequences linearity, smoothness, boundary conditions, reproduction of in-space "
